@@ -517,13 +517,33 @@ pub fn replay(_e: &str, case: &serde_json::Value) -> Result<(), String> {
 }
 
 pub fn run(ctx: &Ctx) -> Report {
-    let (stats, failure) = run_proptest(ctx, "events", 191, ctx.n(40_000, 1_000_000), strategy, |c: &ECase, st| check(c, st));
+    // deterministic long runs: more than 65536 events on a stocked queue, so that the free-running
+    // 16-bit ring indices wrap while all buffers are posted (bursts of 1..37 events, then a drain)
+    let mut items = Vec::new();
+    let long_targets: &[Target] = if ctx.quick() { &[Target::Owning(2, 0), Target::Input, Target::Sound] } else { &[Target::Owning(0, 0), Target::Owning(1, 1), Target::Owning(2, 0), Target::Owning(3, 2), Target::Input, Target::Sound] };
+    for (i, t) in long_targets.iter().enumerate() {
+        for ev in [0u64, 1 << 29] {
+            items.push(ECase { target: *t, kind: if i % 2 == 0 { crate::tkind::TK::Model } else { crate::tkind::TK::MmioModern }, offered: 1 << 32 | ev, policy: if ev == 0 { Serve::OnNotify } else { Serve::Poll }, ops: vec![], rounds: 3700 });
+        }
+    }
+    let (mut stats, mut failure) = crate::runner::run_items(ctx, "events", items, |c: &ECase, st| {
+        let r = check(c, st);
+        if r.is_ok() {
+            st.class("long_run_more_than_65536_events");
+        }
+        r
+    });
+    if failure.is_none() {
+        let (st, f) = run_proptest(ctx, "events", 191, ctx.n(40_000, 1_000_000), strategy, |c: &ECase, st| check(c, st));
+        stats.merge(st);
+        failure = f;
+    }
     Report {
         stats,
         failure,
         info: PartInfo {
             level: "exploration",
-            rule: "proptest histories on OwningQueue<_,N,B> (N in {1,2,8,32}, B in {8,64,512}, handler returning Ok(Some)/Ok(None)/Err), VirtIOInput::pop_pending_event and VirtIOSound::latest_notification (all transports): the device completes any posted buffer (any order), bursts of 0..40 between polls, written length 0..B, followed by up to 300 burst/drain rounds (far more events than the queue size). Oracle: deliveries = the device's completions in used-ring order, once each, exactly the written bytes; after each delivery the device sees exactly one new posting, with the same token and the same device address; posted + pending = N after every poll and N when drained. Non-trivial = more events than the queue size with an out-of-order pick; distinct = (target, transport, features, op kinds, event count).",
+            rule: "proptest histories on OwningQueue<_,N,B> (N in {1,2,8,32}, B in {8,64,512}, handler returning Ok(Some)/Ok(None)/Err), VirtIOInput::pop_pending_event and VirtIOSound::latest_notification (all transports): the device completes any posted buffer (any order), bursts of 0..40 between polls, written length 0..B, followed by up to 300 burst/drain rounds (far more events than the queue size); plus deterministic runs of 3700 burst/drain rounds (> 65536 events, so the ring indices wrap on a fully stocked queue) per target. Oracle: deliveries = the device's completions in used-ring order, once each, exactly the written bytes; after each delivery the device sees exactly one new posting, with the same token and the same device address; posted + pending = N after every poll and N when drained. Non-trivial = more events than the queue size with an out-of-order pick; distinct = (target, transport, features, op kinds, event count).",
             assumptions: vec!["a notification sent before DRIVER_OK is C08's concern and is tolerated here (the device scans its rings when DRIVER_OK is set)".into()],
             exhaustive: false,
             extra: json!({}),
